@@ -353,3 +353,38 @@ pub fn contains_one_tuple(s: &Shape) -> bool {
     walk(s, &mut found);
     found
 }
+
+/// A value that descends through every container of the shape: last variant of every enum, `Some`, one element per
+/// sequence / map; scalars are small and derived from `k`.
+pub fn full_value(s: &Shape, k: u8) -> Value {
+    let f = |s: &Shape| full_value(s, k.wrapping_add(1));
+    let fields = |fs: &[(crate::dynshape::Name, Shape)]| Value::List(fs.iter().map(|(_, s)| f(s)).collect());
+    match s {
+        Shape::Bool => Value::Bool(k % 2 == 0),
+        Shape::I8 | Shape::I16 | Shape::I32 | Shape::I64 | Shape::I128 | Shape::Isize => Value::I(-(k as i128 % 100)),
+        Shape::U8 | Shape::U16 | Shape::U32 | Shape::U64 | Shape::U128 | Shape::Usize => Value::U(k as u128 % 200),
+        Shape::F32 => Value::F32((k as f32).to_bits()),
+        Shape::F64 => Value::F64((k as f64).to_bits()),
+        Shape::Char => Value::Char((b'a' + k % 26) as char),
+        Shape::Str | Shape::String => Value::Str(format!("s{}", k)),
+        Shape::Bytes | Shape::ByteBuf => Value::Bytes(vec![k; (k % 3) as usize]),
+        Shape::Option(i) => Value::Some(Box::new(f(i))),
+        Shape::Unit | Shape::UnitStruct(_) => Value::Unit,
+        Shape::Newtype(_, i) => Value::Newtype(Box::new(f(i))),
+        Shape::Seq(i) | Shape::UnsizedSeq(i) => Value::List(vec![f(i)]),
+        Shape::Tuple(ts) | Shape::TupleStruct(_, ts) => Value::List(ts.iter().map(|s| f(s)).collect()),
+        Shape::Map(kk, v) | Shape::UnsizedMap(kk, v) => Value::Map(vec![(f(kk), f(v))]),
+        Shape::Struct(_, fs) => fields(fs),
+        Shape::Enum(_, vs) => {
+            let i = vs.len() - 1;
+            let payload = match &vs[i].kind {
+                VKind::Unit => Value::Unit,
+                VKind::Newtype(s) => f(s),
+                VKind::Tuple(ts) => Value::List(ts.iter().map(|s| f(s)).collect()),
+                VKind::Struct(fs) => fields(fs),
+            };
+            Value::Variant(i, Box::new(payload))
+        }
+        Shape::DisplayStr => Value::Pieces(vec![format!("p{}", k)]),
+    }
+}
